@@ -42,7 +42,8 @@ Definition dw_observe (m : wgraph) : list (list Z) :=
     zvec zn n (in_degrees V g) ++ map (fun i => zout zn (in_degree V g i)) vs ++ zvec zn n (out_degrees g) ++ map (fun i => zout zn (out_degree g i)) vs;
     match adjacency_matrix V g with Val mm => map zn (concat mm) | Raise e => repeat (zexn e) (n * n) | Undef _ => repeat zub (n * n) end;
     zmat n (weight_matrix n g (fun i j => dw_get_weight m i j true));
-    edge_counts n (iterate V g) ].
+    edge_counts n (iterate V g);
+    iter_segment V g ].
 Inductive wop :=
 | WAdd (s d : nat) (w : Z) (force : bool) | WRemove (s d : nat) | WSet (s d : nat) (w : Z)
 | WSelfLoops | WRemoveVertex (v : nat) | WClear | WResize (n : nat) | WRemoveDuplicates.
@@ -80,7 +81,8 @@ Definition uw_observe (m : wgraph) : list (list Z) :=
     map (fun i => zout zn (u_degree g i true)) vs ++ map (fun i => zout zn (u_degree g i false)) vs ++ zvec zn n (u_degrees g true) ++ zvec zn n (u_degrees g false);
     flat_map (fun tw => match u_adjacency_matrix g tw with Val mm => map zn (concat mm) | Raise e => repeat (zexn e) (n * n) | Undef _ => repeat zub (n * n) end) [true; false];
     zmat n (weight_matrix n g (fun i j => uw_get_weight m i j true));
-    edge_counts n (u_iterate V g) ].
+    edge_counts n (u_iterate V g);
+    iter_segment V g ].
 Definition uw_step (m : wgraph) (o : wop) : wgraph * res :=
   match o with
   | WAdd a b w f => uw_add_edge m a b w f | WRemove a b => uw_remove_edge m a b | WSet a b w => uw_set_weight m a b w
